@@ -65,7 +65,14 @@ class SLCDevice:
             return W.build_mr_reply(req.service, 0, [], rid + bytes([0x46, 0]) + struct.pack("<H", tns) + data)
         if cmd != 0x0F:
             return W.build_mr_reply(req.service, 0, [], rid + bytes([cmd | 0x40, 0x10]) + struct.pack("<H", tns))
-        status, data = self.pccc(fnc, body)
+        refuse = getattr(self, "refuse_next", None)
+        if refuse is not None:
+            # the controller refuses this command with the given STS byte (local 0x01..0x0F or remote 0x10..0xF0 error), nothing is executed
+            self.refuse_next = None
+            self.log.append({"fnc": fnc, "raw": bytes(body), "refused": refuse})
+            status, data = refuse, b""
+        else:
+            status, data = self.pccc(fnc, body)
         out = rid + bytes([0x4F, status]) + struct.pack("<H", tns) + data
         return W.build_mr_reply(req.service, 0, [], out)
 
